@@ -102,10 +102,10 @@ _NT = collections.namedtuple('_NT', ['a', 'b'])
 # Concrete Python values behind the specification's abstract literal ids.  They stress the text
 # level (quoting, escapes, line wrapping, numeric edge cases); all are literally representable.
 LIT_POOL = [
-    's', 7, -3, 2.5, -0.0, 1e300, 10**20, True, None,   # pairwise unequal (no 0 / False next to -0.0, no 1 next to True): they also serve as dict
+    's', 7, -3, 2.5, -0.0, 1e300, 10**20, True, 'none-like',   # pairwise unequal (no 0 / False next to -0.0, no 1 next to True): they also serve as dict
                                                         # keys; their equal-but-differently-typed twins are made by _twin()
     b'by', 'with space', 'qu\'ote"s', 'line\nbreak', ' lead ',
-    (1, 'a'), [1, [2, 'x']], {'k': (1,), 2: None}, '', 'x' * 90, 'back\\slash', 1e-7, -10**15,
+    (1, 'a'), [1, [2, 'x']], {'k': (1,), 2: None}, 'x' * 90, 'back\\slash', 1e-7, -10**15,
     'long ' * 30, [('t', 1.5), {'n': [None, True]}], 'unicod\u00e9',
     b'long bytes ' * 12, [b'wrapped ' * 15, 'x'],            # wider than any line width: pprint wraps them into adjacent literals
 ]
@@ -114,6 +114,10 @@ def _nonlit_pool():
   # (every value here survives copy.deepcopy recognisably: no bare object() instances)
   return [float('inf'), float('-inf'), float('nan'), {1, 2}, 1 + 2j, NonLit('pool-object'), frozenset([3]), _NT(1, 2),
           range(3), [1, {2, 3}], {'k': float('inf')}, (1, len), collections.OrderedDict(a=1), len]
+
+
+# literals with a fixed meaning: values that are false / None in Python
+NAMED_LITS = {'None': None, 'zero': 0, 'empty': ''}
 
 
 def _vkey(x):
@@ -454,6 +458,10 @@ class World:
     if t == 'lit':
       if self.plain_lits:
         return v[1]
+      if v[1] in NAMED_LITS:
+        if v[1] not in self.lits:
+          self.lits[v[1]] = NAMED_LITS[v[1]]
+          self.lit_ids[_vkey(NAMED_LITS[v[1]])] = v[1]
       if v[1] not in self.lits:
         pool = self.lit_pool
         keyish = v[1] in ('1', '2')                          # '1' / '2' also serve as dict keys: hashable, pairwise unequal
